@@ -7,6 +7,7 @@ import (
 	"context"
 	"encoding/base64"
 	"fmt"
+	"io"
 	"net"
 	"net/http"
 	"net/url"
@@ -293,6 +294,54 @@ func main() {
 				}
 			}
 		})
+		// A refusal: the status-error callback is handed "the server response bytes" for parsing.
+		// Whatever line endings the server uses and however the response arrives, net/http reads from
+		// that replay the status, the headers and the body the server sent.
+		r.Part("E5-refusals-as-replayed-to-OnStatusError", func(t *explore.T) {
+			u, _ := url.ParseRequestURI("ws://example.com/chat")
+			for _, status := range []string{"400 Bad Request", "403 Forbidden", "503 Service Unavailable", "200 OK"} {
+				for _, nl := range []string{"\r\n", "\n"} {
+					for _, body := range []string{"", "not today", strings.Repeat("b", 200)} {
+						for _, rb := range []int{0, 64} {
+							for _, chunk := range []int{0, 1, 7} {
+								status, nl, body, rb, chunk := status, nl, body, rb, chunk
+								t.Do(func() string {
+									return fmt.Sprintf("response %q line ending %q body of %d bytes, read buffer %d, transport chunk=%d", status, nl, len(body), rb, chunk)
+								}, func() *explore.Fail {
+									resp := "HTTP/1.1 " + status + nl + "Content-Type: text/plain" + nl + "X-Why: because; of=\"reasons\"" + nl + fmt.Sprintf("Content-Length: %d", len(body)) + nl + nl + body
+									conn := &hs.LazyConn{Policy: env.FixedChunk(chunk)}
+									conn.Respond = func([]byte) []byte { return []byte(resp) }
+									var replay []byte
+									called := 0
+									d := ws.Dialer{ReadBufferSize: rb, OnStatusError: func(code int, reason []byte, r io.Reader) {
+										called++
+										replay, _ = io.ReadAll(r)
+									}}
+									_, _, err := d.Upgrade(conn, u)
+									if err == nil {
+										return explore.Failf("refusal-accepted", "%q", status)
+									}
+									if called != 1 {
+										return explore.Failf("OnStatusError-calls", "%d", called)
+									}
+									res, perr := http.ReadResponse(bufio.NewReader(bytes.NewReader(replay)), nil)
+									if perr != nil {
+										return explore.Failf("replayed-response-not-parseable", "%v: %q", perr, replay)
+									}
+									got, _ := io.ReadAll(res.Body)
+									if res.Status != status || res.Header.Get("X-Why") != "because; of=\"reasons\"" || res.Header.Get("Content-Type") != "text/plain" || string(got) != body {
+										return explore.Failf("replayed-response-differs-from-what-the-server-sent", "status %q headers %v body %q\nreplay %q", res.Status, res.Header, got, replay)
+									}
+									return nil
+								})
+							}
+						}
+					}
+				}
+			}
+			t.Outcome("replayed")
+		})
+
 		// Every byte the server sends behind the response head stays readable, once and in order,
 		// through the returned reader followed by the connection - for every way of dialing the
 		// package offers (Upgrade on a connection, Dial, the debugging dialer, the same debugging
